@@ -32,7 +32,10 @@ CLAIM = dict(
          "float pre-filter (excludeEquiv_conserves), never deletes or moves an old point (excludeEquiv_keeps_old), and for "
          "an equivalence relation returns exactly the first point of every class with the summed class weight "
          "(excludeEquiv_spec); by induction over arbitrary refinement histories the weights stay "
-         ">= 0 and sum to 1 (history_invariant).  Tetrahedra: the five default tetrahedra cover the cell, lie inside it, "
+         ">= 0 and sum to 1 (history_invariant); the re-weighting at a restart of run() (stored factors padded with "
+         "zeros) keeps the stored total and kills every later point, and without the padding weight is gained "
+         "(restart_weights, restart_total_one, restart_without_padding_gains_weight; restart histories of real run() are "
+         "replayed by the oracle).  Tetrahedra: the five default tetrahedra cover the cell, lie inside it, "
          "have disjoint interiors and volumes/weights 1/6,1/6,1/6,1/6,1/3 (five_tetra_*); default weights are "
          "volume/total (initTets_weights); every piece of an edge split (any edge, any ndiv>0) has 1/ndiv of the volume "
          "and weight and keeps the absolute vertex positions (divideTet_volume, divideTet_vertices), and the pieces tile the "
@@ -59,7 +62,9 @@ TRUSTED = [
 RULE = ("cases = (point group from generators on a compatible lattice, grid, symmetry on/off, periodicity mask, random "
         "refinement history of 0-6 steps with random meshes and selected indices; call histories of 3-6 get_K_list calls "
         "with varying (use_symmetry, k_batch) on ONE Grid / GridTetra object with refinement of the returned lists in "
-        "between, and pairs of run() calls on one Grid); non-trivial = the group has more than "
+        "between, pairs of run() calls on one Grid, and restart histories of run(): a stored run followed by 1-3 chained "
+        "restarts from an earlier / negative / the latest iteration with 0-2 further refinements, with and without "
+        "symmetry and dump_results); non-trivial = the group has more than "
         "one element or the history has at least one step; distinct = distinct (group, lattice, grid, flags, history) / "
         "distinct protocol line")
 
@@ -1184,6 +1189,120 @@ def oracle_run_reuse(ctx, rng):
             check_klist(ctx, dict(case, what="get_K_list after the two runs", use_symmetry=bool(us)), kl, div, pg, us)
 
 
+def oracle_restart(ctx, rng):
+    """restart histories of run(): a stored run, then restart=True from an earlier / negative / the latest iteration,
+    possibly chained and refined further.  After EVERY call: the returned result carries total weight 1 (cumulative DOS
+    above all bands), every stored factor vector has sum 1 and no negative entry, and the live points of the iteration
+    the call worked on tile the BZ with their symmetry images"""
+    import pickle
+    import glob
+    from ..wbsys import rand_system, wb
+    name, gens, kind = rng.choice(RUN_GROUPS)
+    lat = lattice(kind, rng)
+    rs = np.random.RandomState(rng.getrandbits(31))
+    nk = rng.choice([2, 3]) if name in ("-1", "m-3m") else rng.choice([2, 3, 4])
+    use_irred = rng.random() < 0.75
+    dump = rng.random() < 0.4
+    adpt_mesh = rng.choice([2, 2, 3])
+    adpt_fac = rng.choice([1, 2])
+    n1 = rng.choice([2, 3])
+    nw = 2
+    case = dict(kind="restart", group=name, gens=gens, lat=lat, NK=nk, use_irred_kpt=use_irred, dump_results=dump,
+                adpt_mesh=adpt_mesh, adpt_fac=adpt_fac, calls=[dict(adpt_num_iter=n1)])
+    with ctx.attempt("run() restart history", case), tempfile.TemporaryDirectory(prefix="c06rst") as tmp:
+        with quiet(), warnings.catch_warnings():
+            warnings.simplefilter("ignore")
+            system = rand_system(rs, num_wann=nw, nR=5, max_R=1, lattice=lat, matrices=("Ham",))
+            system.set_pointgroup(symmetry_gen=gens)
+            grid = wb.Grid(system, NKdiv=nk, NKFFT=1)
+        pg = system.pointgroup
+        mats = full_mats(pg) if use_irred else [np.eye(3, dtype=int)]
+        ef = np.linspace(-1.5, 58.5, 41)     # uniform (the calculator bins by Efermi[1]-Efermi[0]); the top lies above all bands
+        klp = os.path.join(tmp, "kl")
+
+        def call(**kw):
+            with quiet(), warnings.catch_warnings():
+                warnings.simplefilter("ignore")
+                calc = {"cdos": wb.calculators.static.CumDOS(Efermi=ef, tetra=False)}
+                cwd = os.getcwd()
+                os.chdir(tmp)
+                try:
+                    res = wb.run(system, grid, calc, adpt_mesh=adpt_mesh, adpt_fac=adpt_fac, parallel=False,
+                                 use_irred_kpt=use_irred, symmetrize=use_irred, allow_restart=True, dump_results=dump,
+                                 file_Klist_path=klp, fout_name=os.path.join(tmp, "res"), **kw)
+                finally:
+                    os.chdir(cwd)
+            return float(np.array(res.results["cdos"].data).reshape(-1)[-1]) / nw
+
+        def stored():
+            kl = []
+            with open(os.path.join(klp, "K_list.pickle"), "rb") as f:
+                while True:
+                    try:
+                        kl += pickle.load(f)
+                    except EOFError:
+                        break
+            facs = {}
+            for fn in glob.glob(os.path.join(klp, "factors_iter-*.npy")):
+                facs[int(fn.split("-")[-1].split(".")[0])] = np.load(fn)
+            return kl, facs
+
+        def check(what, w, touched):
+            ci = dict(case, after=what)
+            kl, facs = stored()
+            if abs(w - 1) > 1e-9:
+                ctx.fail(f"run() restart history: the result returned by the call '{what}' carries total K-point weight "
+                         f"{w!r} (cumulative DOS above all bands / number of bands) instead of 1", ci)
+            for it, fac in sorted(facs.items()):
+                if len(fac) > len(kl) or (fac < 0).any() or abs(fac.sum() - 1) > 1e-12:
+                    ctx.fail(f"run() restart history: after '{what}' the stored weights of iteration {it} sum to "
+                             f"{fac.sum()!r} (min {fac.min()!r}, {len(fac)} of {len(kl)} K-points)", ci)
+            pts = np.random.RandomState(len(kl) + 5).uniform(0, 1, (5, 3))
+            for it in touched:
+                if it not in facs:
+                    ctx.fail(f"run() restart history: no stored weights for iteration {it} after '{what}'", ci)
+                    continue
+                fac = facs[it]
+                sub = kl[:len(fac)]
+                if monomial(mats) and len(sub) * len(mats) < 30000:
+                    tmpk = []
+                    for K, wgt in zip(sub, fac):
+                        o = _K()
+                        o.K, o.dK, o.factor = K.K, K.dK, wgt
+                        tmpk.append(o)
+                    D = density(mats, tmpk, pts)
+                    if np.abs(D - 1).max() > 1e-9:
+                        ctx.fail(f"run() restart history: after '{what}' the live cells of iteration {it} and their symmetry "
+                                 f"images do not tile the BZ with the right weight: density {D}", ci)
+                    ctx.count("oracle.restart.density-checked")
+            return max(facs)
+
+        w = call(adpt_num_iter=n1)
+        last = check(f"first run, adpt_num_iter={n1}", w, range(n1 + 1))
+        ctx.case(signature=("restart", str(case)), nontrivial=True)
+        for ichain in range(rng.randint(1, 3)):
+            r = rng.random()
+            if r < 0.5 and last >= 1:
+                rit = rng.randrange(0, last)          # explicit earlier iteration
+                start = rit
+                kindr = "earlier"
+            elif r < 0.75:
+                rit = -rng.randint(1, 2)               # negative: counted from the last stored iteration
+                start = max(0, last + rit + 1)
+                kindr = "negative"
+            else:
+                rit = last
+                start = last
+                kindr = "latest"
+            more = rng.choice([0, 1, 1, 2])
+            case["calls"].append(dict(restart_iteration=rit, adpt_num_iter=more))
+            ctx.count(f"oracle.restart.from-{kindr}")
+            w = call(adpt_num_iter=more, restart=True, restart_iteration=rit)
+            last_all = check(f"restart from iteration {rit} (+{more} refinements)", w, range(start, start + more + 1))
+            last = last_all     # files of later iterations of an abandoned branch stay on disk: they are restart points too
+        ctx.count("oracle.restart.cases")
+
+
 def bary(verts, p):
     T = np.array([verts[1] - verts[0], verts[2] - verts[0], verts[3] - verts[0]]).T
     l = np.linalg.solve(T, p - verts[0])
@@ -1374,6 +1493,8 @@ def oracle(ctx, scale):
         oracle_run(ctx, rng)
     for it in range(ctx.n(1, 3) * scale):
         oracle_run_reuse(ctx, rng)
+    for it in range(ctx.n(2, 8) * scale):
+        oracle_restart(ctx, rng)
     # O4: tetrahedra
     for it in range(ctx.n(5, 20) * scale):
         oracle_tetra(ctx, rng, tie_probe=(it == 0))
